@@ -11,6 +11,8 @@
 import Proofs.Lemmas.Ensemble
 import Proofs.Lemmas.EnsembleDistinct
 import Proofs.Lemmas.ComposeEnsemble
+import Proofs.Lemmas.EnsembleScale
+import Proofs.C02
 
 namespace C08
 open Pool Ensemble
@@ -589,5 +591,198 @@ theorem ceemd_composed_cols_le_cap (σ : Nat → Schedule) (p : Nat → Nat) (F 
         = (Sift.ceemd (ComposeEnsemble.stepNx F Fn mode scale M) thr (some k) x fuel).1 := by
   have hcap := C03.ceemd_cols_le_cap (ComposeEnsemble.stepNx F Fn mode scale M) thr x fuel k hk
   exact ⟨_, by omega, ceemd_agrees_with_sift_model σ p F Fn mode scale M thr (some k) x fuel hσ⟩
+
+/-! ### The scale law: the noise amplitude is LINEAR in the amplitude of the signal, at every amplitude
+
+  `noise_scaling = X.std() * ensemble_noise` (`Ensemble.noiseScale`), and nothing else in the ensemble sifts
+  depends on the amplitude of the input: no absolute tolerance decides whether "there is noise".  Stated for the
+  model with `np.std` as an oracle `std` that is positively homogeneous at the factor considered
+  (`hstd : std (c • x) = c · std x`, true of the standard deviation for every `c ≥ 0`).  A shortcut such as
+  `if np.isclose(noise_scaling, 0): return sift(X)` (seeded C08-8) or a second multiplication by the scale
+  (the defect repaired by 6e31bea, `pinned_first_fanout_double_scaled`) contradicts each of the theorems below
+  on a signal scaled by a small `c`. -/
+
+/-- `noise_scaling` of `c • x` is `c` times that of `x`. -/
+theorem noise_scale_linear (std : Sig → Rat) (level c : Rat) (x : Sig) (hstd : std (Sig.smul c x) = c * std x) :
+    noiseScale std level (Sig.smul c x) = c * noiseScale std level x := by
+  unfold noiseScale
+  rw [hstd, Rat.mul_assoc]
+
+/-- Under every schedule member `i` of `ensemble_sift(x, ensemble_noise = level)` is the classic sift of
+    `x + memberNoise i` (flip mode: the column-wise mean of the sifts of `x + memberNoise i` and
+    `x − memberNoise i`), where `memberNoise i = (std x · level) • (i-th draw)` is the array actually added. -/
+theorem ensemble_member_adds_member_noise (σ : Schedule) (p : Nat) (draw : ρ → Sig × ρ) (g : ρ) (S : Sig → List Sig)
+    (N : Nat) (std : Sig → Rat) (level : Rat) (x : Sig) (hσ : σ.Valid N p) (i : Nat) (hi : i < N) :
+    ((ensembleTraceLevel σ draw g S .single N std level x)[i]?).map (·.2)
+      = some (S (Sig.add x (memberNoise draw g std level x i))) ∧
+    ((ensembleTraceLevel σ draw g S .flip N std level x)[i]?).map (·.2)
+      = some (flipMean x.length (S (Sig.add x (memberNoise draw g std level x i)))
+                               (S (Sig.sub x (memberNoise draw g std level x i)))) := by
+  unfold ensembleTraceLevel
+  rw [ensemble_member_noise σ p draw g S .single N _ x hσ i hi, ensemble_member_noise σ p draw g S .flip N _ x hσ i hi]
+  exact ⟨rfl, rfl⟩
+
+/-- THE SCALE LAW OF THE NOISE: the array added to member `i` for the input `c • x` is `c` times the array added
+    to member `i` for `x` — for every factor at which `std` is homogeneous, in particular every `c > 0`
+    however small. -/
+theorem ensemble_member_noise_scales (draw : ρ → Sig × ρ) (g : ρ) (std : Sig → Rat) (level c : Rat) (x : Sig)
+    (hstd : std (Sig.smul c x) = c * std x) (i : Nat) :
+    memberNoise draw g std level (Sig.smul c x) i = Sig.smul c (memberNoise draw g std level x i) := by
+  unfold memberNoise
+  rw [noise_scale_linear std level c x hstd, smul_smul]
+
+/-- NO ABSOLUTE THRESHOLD: if the requested level is non-zero and `x` is not constant (`std x ≠ 0`), then for
+    EVERY non-zero factor `c` (tiny ones included) the noise amplitude of `c • x` is non-zero, every member
+    receives a non-zero noise array (its draw being non-zero) and two different members sift different signals,
+    `c•x + noise_i ≠ c•x + noise_j` and `c•x − noise_i ≠ c•x − noise_j`: the ensemble never degenerates to
+    copies of the bare input. -/
+theorem ensemble_noise_never_negligible (draw : ρ → Sig × ρ) (g : ρ) (std : Sig → Rat) (level c : Rat) (x : Sig)
+    (hstd : std (Sig.smul c x) = c * std x) (hc : c ≠ 0) (hl : level ≠ 0) (hsd : std x ≠ 0)
+    (hinj : Function.Injective (nthDraw draw g)) (hdraw : ∀ i, (nthDraw draw g i).length = x.length) :
+    noiseScale std level (Sig.smul c x) ≠ 0 ∧
+    (∀ i, nthDraw draw g i ≠ Sig.zeros x.length →
+      memberNoise draw g std level (Sig.smul c x) i ≠ Sig.zeros x.length ∧
+      Sig.add (Sig.smul c x) (memberNoise draw g std level (Sig.smul c x) i) ≠ Sig.smul c x) ∧
+    ∀ i j, i ≠ j →
+      Sig.add (Sig.smul c x) (memberNoise draw g std level (Sig.smul c x) i)
+        ≠ Sig.add (Sig.smul c x) (memberNoise draw g std level (Sig.smul c x) j) ∧
+      Sig.sub (Sig.smul c x) (memberNoise draw g std level (Sig.smul c x) i)
+        ≠ Sig.sub (Sig.smul c x) (memberNoise draw g std level (Sig.smul c x) j) := by
+  have hs : noiseScale std level (Sig.smul c x) ≠ 0 := by
+    rw [noise_scale_linear std level c x hstd]
+    unfold noiseScale
+    exact mul_ne_zero hc (mul_ne_zero hsd hl)
+  have hlen : (Sig.smul c x).length = x.length := length_smul' c x
+  have hl' : ∀ k, (memberNoise draw g std level (Sig.smul c x) k).length = (Sig.smul c x).length := fun k => by
+    unfold memberNoise; rw [length_smul', hdraw k, hlen]
+  refine ⟨hs, ?_, ?_⟩
+  · intro i hi
+    have h1 : memberNoise draw g std level (Sig.smul c x) i ≠ Sig.zeros x.length := by
+      intro h
+      apply hi
+      apply smul_injective _ hs
+      unfold memberNoise at h
+      rw [h, Sift.smul_zeros]
+    refine ⟨h1, ?_⟩
+    intro h
+    apply h1
+    have hz : Sig.add (Sig.smul c x) (Sig.zeros (Sig.smul c x).length) = Sig.smul c x := Sig.add_zeros _
+    rw [← hlen]
+    exact add_left_cancel (Sig.smul c x) _ _ (hl' i) (by simp [Sig.zeros]) (h.trans hz.symm)
+  · intro i j hij
+    refine ⟨?_, ?_⟩
+    · intro h
+      exact hij (hinj (smul_injective _ hs (add_left_cancel _ _ _ (hl' i) (hl' j) h)))
+    · intro h
+      exact hij (hinj (smul_injective _ hs (sub_left_cancel _ _ _ (hl' i) (hl' j) h)))
+
+/-- THE SCALE LAW OF THE RESULT: if the classic sift commutes with the factor `c` (C02: `S' (c • y) = c • S y` column
+    by column; `S' = S` for a scale-free sift, `S'` = the sift with `sift_thresh` scaled by `|c|` in general — the one
+    absolute number in the classic sift) and `std` is homogeneous at `c`, then
+    `ensemble_sift (c • x) = c • ensemble_sift x`, column by column, exactly — both noise modes, every ensemble size,
+    level, generator and pair of schedules.  (With the same draws the members of `c • x` are `c` times the members of
+    `x`; a noise amplitude that is not linear in the amplitude of `x` breaks this whatever `S` is.) -/
+theorem ensemble_scale_law (σ σ' : Schedule) (p p' : Nat) (draw : ρ → Sig × ρ) (g : ρ) (S S' : Sig → List Sig)
+    (mode : Mode) (N : Nat) (std : Sig → Rat) (level c : Rat) (x : Sig) (hσ : σ.Valid N p) (hσ' : σ'.Valid N p')
+    (hstd : std (Sig.smul c x) = c * std x) (hS : ∀ y, S' (Sig.smul c y) = (S y).map (Sig.smul c)) :
+    ensembleSiftLevel σ draw g S' mode N std level (Sig.smul c x)
+      = (ensembleSiftLevel σ' draw g S mode N std level x).map (Sig.smul c) := by
+  unfold ensembleSiftLevel
+  rw [noise_scale_linear std level c x hstd, ensembleSift_scale σ p draw g S S' c hS mode N _ x hσ,
+    (ensemble_schedule_indep σ σ' p p' draw g S mode N _ x hσ hσ').2]
+  rfl
+
+/-- … and member by member: the decomposition of member `i` of `c • x` is `c` times that of member `i` of `x`. -/
+theorem ensemble_members_scale (σ σ' : Schedule) (p p' : Nat) (draw : ρ → Sig × ρ) (g : ρ) (S S' : Sig → List Sig)
+    (mode : Mode) (N : Nat) (std : Sig → Rat) (level c : Rat) (x : Sig) (hσ : σ.Valid N p) (hσ' : σ'.Valid N p')
+    (hstd : std (Sig.smul c x) = c * std x) (hS : ∀ y, S' (Sig.smul c y) = (S y).map (Sig.smul c))
+    (i : Nat) (hi : i < N) :
+    ((ensembleTraceLevel σ draw g S' mode N std level (Sig.smul c x))[i]?).map (·.2)
+      = ((ensembleTraceLevel σ' draw g S mode N std level x)[i]?).map (fun m => m.2.map (Sig.smul c)) := by
+  unfold ensembleTraceLevel
+  rw [ensemble_member_noise σ p draw g S' mode N _ _ hσ i hi, ensemble_member_noise σ' p' draw g S mode N _ x hσ' i hi,
+    noise_scale_linear std level c x hstd]
+  simp only [Option.map_some, Option.some.injEq]
+  exact siftWithNoise_scale S S' c hS mode _ x _
+
+/-- The scale law over the classic sift of the Sift model (C02.sift_smul): for a single-IMF extraction that commutes
+    with the factor `c ≠ 0` (`hX`; C02.getNextImf_smul derives it from homogeneous envelopes and scale-free stop rules),
+    the ensemble sift of `c • x` run with `sift_thresh = |c|·thr` is `c` times the ensemble sift of `x` run with `thr`
+    — every cap, fuel, noise mode, ensemble size, level, generator and schedules. -/
+theorem ensemble_scale_law_classic_sift (σ σ' : Schedule) (p p' : Nat) (draw : ρ → Sig × ρ) (g : ρ)
+    (X X' : Sig → Option (Sig × Bool)) (c : Rat) (hc : c ≠ 0)
+    (hX : ∀ y, X' (Sig.smul c y) = (X y).map fun r => (Sig.smul c r.1, r.2))
+    (thr : Rat) (cap : Option Nat) (fuel : Nat) (mode : Mode) (N : Nat) (std : Sig → Rat) (level : Rat) (x : Sig)
+    (hσ : σ.Valid N p) (hσ' : σ'.Valid N p') (hstd : std (Sig.smul c x) = c * std x) :
+    ensembleSiftLevel σ draw g (fun y => (Sift.sift X' (Rat.abs' c * thr) cap y fuel).1) mode N std level (Sig.smul c x)
+      = (ensembleSiftLevel σ' draw g (fun y => (Sift.sift X thr cap y fuel).1) mode N std level x).map (Sig.smul c) :=
+  ensemble_scale_law σ σ' p p' draw g _ _ mode N std level c x hσ hσ' hstd
+    (fun y => by simp only [C02.sift_smul c hc X X' hX thr cap y fuel])
+
+/-- Complete ensemble: the parent's noise matrix at EVERY stage is linear in the amplitude of the signal —
+    stage `k` of `c • x` holds `c` times the columns of stage `k` of `x` (noise-only first IMF `Fn` commuting with
+    `c`) — and so is the whole result: `complete_ensemble_sift (c • x) = c • complete_ensemble_sift x` (components
+    and returned noise), for every number of stages, matrix, mode and pair of schedule families. -/
+theorem ceemd_scale_law (σ σ' : Nat → Schedule) (p p' : Nat → Nat) (F Fn : Sig → Sig) (mode : Mode)
+    (std : Sig → Rat) (level c : Rat) (M : List Sig) (x : Sig) (stages : Nat)
+    (hσ : ∀ k, (σ k).Valid M.length (p k)) (hσ' : ∀ k, (σ' k).Valid M.length (p' k))
+    (hstd : std (Sig.smul c x) = c * std x)
+    (hF : ∀ y, F (Sig.smul c y) = Sig.smul c (F y)) (hFn : ∀ y, Fn (Sig.smul c y) = Sig.smul c (Fn y)) :
+    (∀ k, stageNoise Fn (noiseScale std level (Sig.smul c x)) M k
+        = (stageNoise Fn (noiseScale std level x) M k).map (Sig.smul c)) ∧
+    ceemdLevel σ F Fn mode std level M (Sig.smul c x) stages
+      = ((ceemdLevel σ' F Fn mode std level M x stages).1.map (Sig.smul c),
+         (ceemdLevel σ' F Fn mode std level M x stages).2.map (Sig.smul c)) := by
+  have hM : ∀ s : Rat, (M.map (Sig.smul s)).length = M.length := fun s => by simp
+  have hspec : ∀ (τ : Nat → Schedule) (q : Nat → Nat), (∀ k, (τ k).Valid M.length (q k)) → ∀ (s : Rat) (y : Sig),
+      ceemd τ F Fn mode s M y stages =
+        specLoop F Fn mode y stages [stageImf F mode none y (M.map (Sig.smul s))]
+          ((M.map (Sig.smul s)).map (noiseResidual Fn)) := by
+    intro τ q hτ s y
+    unfold ceemd
+    simp only []
+    rw [ceemdImf_eq (τ 0) (q 0) F mode none y _ (hM s ▸ hτ 0), ceemdNoiseStep_eq (τ 1) (q 1) Fn _ (hM s ▸ hτ 1)]
+    exact ceemdLoop_eq τ q F Fn mode y M.length hτ stages 2 _ _ (by simp)
+  have hres : ∀ k ν, residualPow Fn k (Sig.smul c ν) = Sig.smul c (residualPow Fn k ν) := by
+    intro k
+    induction k with
+    | zero => intro ν; rfl
+    | succ k ih => intro ν; simp only [residualPow]; rw [noiseResidual_scale Fn c hFn, ih]
+  have hmat : M.map (Sig.smul (c * noiseScale std level x)) = (M.map (Sig.smul (noiseScale std level x))).map (Sig.smul c) := by
+    rw [List.map_map]
+    apply List.map_congr_left
+    intro m _
+    exact (smul_smul c _ m).symm
+  refine ⟨?_, ?_⟩
+  · intro k
+    unfold stageNoise
+    rw [noise_scale_linear std level c x hstd, List.map_map]
+    apply List.map_congr_left
+    intro m _
+    simp only [Function.comp]
+    rw [← smul_smul, hres]
+  · unfold ceemdLevel
+    rw [noise_scale_linear std level c x hstd, hspec σ p hσ, hspec σ' p' hσ', hmat]
+    have h2 : ∀ L : List Sig, (L.map (Sig.smul c)).map (noiseResidual Fn) = (L.map (noiseResidual Fn)).map (Sig.smul c) := by
+      intro L
+      rw [List.map_map, List.map_map]
+      apply List.map_congr_left
+      intro ν _
+      exact noiseResidual_scale Fn c hFn ν
+    rw [h2, stageImf_scale F c hF]
+    exact specLoop_scale F Fn c hF hFn mode x stages [_] _
+
+-- non-vacuity: a homogeneous `std` (mean absolute value·… here simply the abs-sum, homogeneous for c ≥ 0), a sift
+-- that commutes with every factor (one column: the signal itself), counter draws; the scaled run on numbers:
+-- x = [3, -1], std x = 4, level 1/2 → noise scale 2; for 1/1000 • x the scale is 2/1000 — not zero
+example : noiseScale Sig.absSum (1/2) [3, -1] = 2 ∧ noiseScale Sig.absSum (1/2) (Sig.smul (1/1000) [3, -1]) = 2/1000 := by
+  decide +kernel
+example : Sig.absSum (Sig.smul (1/1000) [3, -1]) = (1/1000) * Sig.absSum [3, -1] := by decide +kernel
+example : ∀ y, (fun y : Sig => [y]) (Sig.smul (1/1000) y) = ((fun y : Sig => [y]) y).map (Sig.smul (1/1000)) := fun _ => rfl
+-- an extraction that commutes with every factor (hypothesis `hX` of `ensemble_scale_law_classic_sift`): return the input, flag cleared
+example : ∀ (c : Rat) (y : Sig), (fun y : Sig => some (y, false)) (Sig.smul c y)
+    = ((fun y : Sig => some (y, false)) y).map fun r => (Sig.smul c r.1, r.2) := fun _ _ => rfl
+example : ensembleSiftLevel σex counterDraw 0 (fun y => [y]) .single 4 Sig.absSum (1/2) [3]
+    = [[3 + (3 * (1/2)) * ((0 + 1 + 2 + 3) / 4)]] := by decide +kernel
 
 end C08
